@@ -62,26 +62,32 @@ var dcFieldSrc = map[string]string{
 	"structTwice": "TW1 Series\n\tTW2 Series",
 	// the package declares identifiers named like standard packages a generated file might import (slices, maps)
 	"identClash": "SL []bool\n\tMP map[string]bool",
+	// a struct by value whose only container is of a DEFINED map type (no literal slice / map anywhere in it)
+	"structDefinedMap": "Meta MetaT",
+	// an embedded same-package struct, one of whose field names the embedding struct declares itself as well (shadowing)
+	"embedShadow": "EmbT\n\tTags []string",
 	// two enabled types whose names differ in case only: their order in the generated file is fixed all the same
 	"caseTwins": "Op Option\n\tOp2 option",
 }
 
 var dcDeps = map[string]string{
-	"structVal":       "// Inner is nested by value.\ntype Inner struct {\n\tL []int\n\tX int\n}\n",
-	"structDeep":      "// Deep nests two levels.\ntype Deep struct {\n\tIn2 Inner2\n\tM   map[string]string\n}\n\n// Inner2 is the second level.\ntype Inner2 struct {\n\tL []string\n}\n",
-	"definedScalar":   "// MyInt is a defined scalar.\ntype MyInt int\n",
-	"definedMap":      "// MyMap is a defined map.\ntype MyMap map[string]int\n",
-	"definedMapM":     "// MyMapM is a defined map with a method of its own.\ntype MyMapM map[string]int\n\n// Len is hand written.\nfunc (m MyMapM) Len() int { return len(m) }\n",
-	"mapOfDefined":    "// MyInt is a defined scalar.\ntype MyInt int\n",
-	"genericInst":     "// Gen is a generic struct.\ntype Gen[X any] struct {\n\tV X\n\tL []int\n}\n",
-	"untaggedDep":     "// Untagged is a dependency without its own tag.\ntype Untagged struct {\n\tL []int\n}\n",
-	"structWide":      "// Wide has two struct fields of its own.\ntype Wide struct {\n\tA WA\n\tB WB\n}\n\n// WA is the first.\ntype WA struct {\n\tL []int\n}\n\n// WB is the second.\ntype WB struct {\n\tM map[string]int\n}\n",
-	"structMixed":     "// Mixed starts with scalars and a scalar-only struct; containers follow.\ntype Mixed struct {\n\tAuthor string\n\tOrigin Point\n\tTags   []string\n\tAttrs  map[string]string\n}\n\n// Point has scalars only.\ntype Point struct {\n\tX, Y int\n}\n",
-	"structTwice":     "// Series holds containers; the root type has two fields of it.\ntype Series struct {\n\tPoints []int\n\tTags   map[string]string\n}\n",
-	"caseTwins":       "// Option is exported.\ntype Option struct {\n\tL []int\n}\n\n// option differs from Option in case only.\ntype option struct {\n\tM map[string]int\n}\n",
-	"identClash":      "// slices is an identifier of this package.\ntype slices uint8\n\n// maps likewise.\ntype maps uint8\n",
-	"definedMapLate":  "// ZMap is a defined map; its name sorts after the root type's.\ntype ZMap map[string]int\n",
-	"genericNamedArg": "// ZPair is generic; its name sorts after the root type's, so it is first met as a dependency.\ntype ZPair[K comparable, V any] struct {\n\tKey K\n\tVal V\n\tM   map[string]int\n}\n\n// Level is a defined scalar used as a type argument.\ntype Level int\n",
+	"structVal":        "// Inner is nested by value.\ntype Inner struct {\n\tL []int\n\tX int\n}\n",
+	"structDeep":       "// Deep nests two levels.\ntype Deep struct {\n\tIn2 Inner2\n\tM   map[string]string\n}\n\n// Inner2 is the second level.\ntype Inner2 struct {\n\tL []string\n}\n",
+	"definedScalar":    "// MyInt is a defined scalar.\ntype MyInt int\n",
+	"definedMap":       "// MyMap is a defined map.\ntype MyMap map[string]int\n",
+	"definedMapM":      "// MyMapM is a defined map with a method of its own.\ntype MyMapM map[string]int\n\n// Len is hand written.\nfunc (m MyMapM) Len() int { return len(m) }\n",
+	"mapOfDefined":     "// MyInt is a defined scalar.\ntype MyInt int\n",
+	"genericInst":      "// Gen is a generic struct.\ntype Gen[X any] struct {\n\tV X\n\tL []int\n}\n",
+	"untaggedDep":      "// Untagged is a dependency without its own tag.\ntype Untagged struct {\n\tL []int\n}\n",
+	"structWide":       "// Wide has two struct fields of its own.\ntype Wide struct {\n\tA WA\n\tB WB\n}\n\n// WA is the first.\ntype WA struct {\n\tL []int\n}\n\n// WB is the second.\ntype WB struct {\n\tM map[string]int\n}\n",
+	"structMixed":      "// Mixed starts with scalars and a scalar-only struct; containers follow.\ntype Mixed struct {\n\tAuthor string\n\tOrigin Point\n\tTags   []string\n\tAttrs  map[string]string\n}\n\n// Point has scalars only.\ntype Point struct {\n\tX, Y int\n}\n",
+	"structTwice":      "// Series holds containers; the root type has two fields of it.\ntype Series struct {\n\tPoints []int\n\tTags   map[string]string\n}\n",
+	"structDefinedMap": "// MetaT holds scalars and a defined map.\ntype MetaT struct {\n\tName   string\n\tLabels Labels\n}\n\n// Labels is a defined map type.\ntype Labels map[string]string\n",
+	"embedShadow":      "// EmbT is embedded by the root type, which has a field Tags of its own too.\ntype EmbT struct {\n\tTags []string\n\tN    int\n}\n",
+	"caseTwins":        "// Option is exported.\ntype Option struct {\n\tL []int\n}\n\n// option differs from Option in case only.\ntype option struct {\n\tM map[string]int\n}\n",
+	"identClash":       "// slices is an identifier of this package.\ntype slices uint8\n\n// maps likewise.\ntype maps uint8\n",
+	"definedMapLate":   "// ZMap is a defined map; its name sorts after the root type's.\ntype ZMap map[string]int\n",
+	"genericNamedArg":  "// ZPair is generic; its name sorts after the root type's, so it is first met as a dependency.\ntype ZPair[K comparable, V any] struct {\n\tKey K\n\tVal V\n\tM   map[string]int\n}\n\n// Level is a defined scalar used as a type argument.\ntype Level int\n",
 }
 
 func dcSource(pkg string, dc dcCase) string {
